@@ -39,6 +39,21 @@ Theorem C16_chain_of_identities : forall ks n, Forall (fun k => k = CId) ks -> c
 Proof. exact chainf_id_only. Qed.
 Print Assumptions C16_chain_of_identities.
 
+(* the full metadata statement, for any chain of callbacks: whatever the chain makes of the node in between (a scalar,
+   a list, copies, fresh objects), as long as no callback brings position metadata of its own or answers with another
+   node of the tree, a result that is a parsed object carries the metadata of the node it stands for *)
+Theorem C16_chain_keeps_metadata : forall ks i c fs m, i < FRESH -> Forall brings_no_metadata ks ->
+  match chainf ks (XObj i c fs m) with XObj _ _ _ m' => m' = m | _ => True end.
+Proof. exact chain_keeps_metadata. Qed.
+Print Assumptions C16_chain_keeps_metadata.
+
+(* ... which the chain as shipped violated (metadata was handed over from the previous VALUE only): node -> scalar ->
+   fresh object lost it.  Repaired in /repo; the witness is the replay of the finding. *)
+Example C16_shipped_chain_refuted :
+  shipped_chainf [CLeaf 11; CWrap 12] (XObj 3 11 [] (Some 77)) = XObj (FRESH + 1) 12 [] None /\
+  chainf [CLeaf 11; CWrap 12] (XObj 3 11 [] (Some 77)) = XObj (FRESH + 1) 12 [] (Some 77).
+Proof. exact shipped_chain_loses_metadata. Qed.
+
 (* non-vacuity / examples: replacement inherits metadata, the parent copy keeps the parent's *)
 Example C16_example :
   fst (tr (chainf [CRepl 11 12]) (XObj 1 10 [XLeaf 2; XObj 3 11 [XLeaf 4] (Some 77)] (Some 66)) (TS 100 []))
